@@ -114,6 +114,11 @@ def wire(p1, p2, n, r, tag=None, taper=None):
     return d
 
 
+def auto_nseg(length, target, nmin=2):
+    """segment count that brings the segment length closest to target"""
+    return max(nmin, int(round(length / target)))
+
+
 def seg_ends(w):
     """segment end points of a (non-tapered) straight wire, from the case only"""
     p1, p2 = np.array(w['p1']), np.array(w['p2'])
